@@ -45,22 +45,26 @@ def run (s : Sexp) : String :=
       let results := qs.flatMap fun q => (if q.selfRef then os else os.take 1).map fun o =>
         persistReload q o unmap c.via c.heap c.roots
       -- F-C05-4 (= F-C04-2): every admissible outcome of temporary-parent id collisions in from_dao
-      let withStale : Option (List Nat × Heap × DB) → List String := fun r =>
+      -- F-C05-5 (= F-C04-3) applied or repaired, then every outcome of temporary-parent id collisions
+      let variants (deepFixed : Bool) : Option (List Nat × Heap × DB) → List String := fun r =>
         match r with
         | some (roots, h, db) =>
-          let cs := (staleChoices h [] (subSlots h)).filter (fun (ch : List (Nat × Nat)) => !ch.isEmpty)
-          (cs.take 32).map fun (ch : List (Nat × Nat)) => showResult (some (roots, staleParent h ch, db))
-        | none => []
-      let all := results.map showResult ++ results.flatMap withStale
-      let trig4 := match results.head? with
-        | some (some (_, h, _)) => trigStaleParent h
-        | _ => false
+          let out := if deepFixed then h else dropDeepParent h
+          let cs := staleChoices out [] (subSlotsD deepFixed out)
+          (cs.take 32).map fun (ch : List (Nat × Nat)) => showResult (some (roots, staleParent out ch, db))
+        | none => ["error:model"]
+      -- F-C05-5 is repaired in /repo (fix commit 76e196d): only the repaired variants are admissible now
+      let all := results.flatMap (variants true)
+      let (trig4, trig5) := match results.head? with
+        | some (some (_, h, _)) => (trigStaleParent h, false)
+        | _ => (false, false)
       let distinct := dedupStrings all
       let spec := canon c.heap c.roots ++ " rows:" ++ showCounts (specCounts c.heap c.roots)
       let trig := (if trigSelfRef dh then ["F-C05-1"] else [])
         ++ (if trigStale unmap c.heap c.roots then ["F-C05-2"] else [])
         ++ (if trigDup dh then ["F-C05-3"] else [])
         ++ (if trig4 then ["F-C05-4"] else [])
+        ++ (if trig5 then ["F-C05-5"] else [])
       let models := match distinct with
         | [] => "model=error:model"
         | m :: rest => "\t".intercalate (s!"model={m}" :: (rest.zipIdx.map fun (p : String × Nat) => s!"model_{p.2 + 1}={p.1}"))
